@@ -232,6 +232,106 @@ def _replay_cfg(job):
     out['tlc_runs'] = rep.cov['tlc_runs']
     return out
 
+DIRECTED_INPUTS = [
+    '(assert (and a b c))\n(check-sat)\n',
+    '(declare-const x Int)\n(assert (> (+ x 1) (* (- x 2) (+ x 3))))\n',
+    '(assert (or (and p q) (and (not p) r) s))\n',
+]
+
+
+def _ref_tokens(node_or_list, repl):
+    """Tokens of the forest with the nodes whose id is in `repl` replaced by
+    the given token lists (reference, on the structure only)."""
+    out = []
+
+    def walk(n):
+        if n.id in repl:
+            out.extend(repl[n.id])
+        elif n.is_leaf():
+            out.append(n.data)
+        else:
+            out.append('(')
+            for c in n.data:
+                walk(c)
+            out.append(')')
+
+    for e in node_or_list:
+        walk(e)
+    return out
+
+
+def _w_apply(args):
+    """In a pool worker: apply a pickled simplification to a pickled input."""
+    import pickle
+    from ddsmt import mutator_utils
+    exprs, simp = pickle.loads(args[0]), pickle.loads(args[1])
+    return pickle.dumps(mutator_utils.apply_simp(exprs, simp))
+
+
+def directed(mods, rep):
+    """(a) an identity key whose replacement is the numeral spelling the id
+    of the designated node; (b) two simplifications computed for the same
+    input, the first applied by one worker process, the second (still
+    pending) applied to the result by ANOTHER worker process - both forked
+    from the process that parsed the input, as the pools of the strategies
+    are."""
+    import multiprocessing
+    import pickle
+    import proposals as P
+    nodes, nodeio, mu = mods['nodes'], mods['nodeio'], mods['mutator_utils']
+    Node = nodes.Node
+    n = 0
+    for text in DIRECTED_INPUTS:
+        exprs = list(nodeio.parse_smtlib(text))
+        allnodes = list(nodes.dfs(exprs))
+        for nd in allnodes:
+            rep.count()
+            n += 1
+            simp = mu.Simplification({nd.id: Node(str(nd.id))}, [])
+            want = _ref_tokens(exprs, {nd.id: [str(nd.id)]})
+            try:
+                got = P.toks_of(mu.apply_simp(exprs, simp))
+            except Exception as e:  # noqa
+                got = ['<exception %r>' % e]
+            if got != want:
+                rep.violation(
+                    'numeral-spelling-the-id:' + common.digest([text]),
+                    f'apply_simp with {{{nd.id}: {nd.id}}} (the node '
+                    f'{str(nd)!r} replaced by the numeral that spells its '
+                    f'id) gives {" ".join(got)!r}, expected '
+                    f'{" ".join(want)!r}', {'input': text, 'id': nd.id})
+        # (b) pairs of non-nested nodes: sibling subtrees
+        pairs = []
+        for par in allnodes:
+            if not par.is_leaf() and len(par.data) >= 3:
+                pairs.append((par.data[1], par.data[2]))
+                pairs.append((par.data[-1], par.data[1]))
+        ctx = multiprocessing.get_context('fork')
+        for x, y in pairs[:6]:
+            rep.count()
+            n += 1
+            s1 = mu.Simplification({x.id: Node('true')}, [])
+            s2 = mu.Simplification({y.id: Node('false')}, [])
+            want = _ref_tokens(exprs, {x.id: ['true'], y.id: ['false']})
+            pe = pickle.dumps(exprs)
+            try:
+                with ctx.Pool(1) as pa, ctx.Pool(1) as pb:
+                    r1 = pa.apply(_w_apply, ((pe, pickle.dumps(s1)), ))
+                    r2 = pb.apply(_w_apply, ((r1, pickle.dumps(s2)), ))
+                got = P.toks_of(pickle.loads(r2))
+            except Exception as e:  # noqa
+                got = ['<exception %r>' % e]
+            if got != want:
+                rep.violation(
+                    'pending-simplification-in-another-worker:' +
+                    common.digest([text]),
+                    f'two simplifications computed for {text!r}: '
+                    f'{str(x)!r} := true applied by one worker, then the '
+                    f'pending {str(y)!r} := false applied to the result by '
+                    f'another worker gives {" ".join(got)!r}, expected '
+                    f'{" ".join(want)!r}', {'input': text})
+    rep.cov['directed_cases'] = n
+
 
 def main():
     a = common.std_args()
@@ -279,6 +379,7 @@ def main():
             rep.violation(sig, msg, rp)
         for smp in part['samples']:
             rep.sample(smp)
+    directed(mods, rep)
     rep.cov['traces_validated_against_impl'] = n - skipped
     rep.cov['skipped_after_repeated_timeout'] = skipped
     rep.cov['exhaustive'] = True
